@@ -39,6 +39,11 @@ CHECKS = {
    text='Seeded exploration over dispatch slots x frame positions x address placements: each contended step must equal its plain twin (T/MEMPTR aside), never be faster, and be slower by exactly the reference ULA delay for the reference bus-cycle list.',
    note='Trusts RefZ80 cycle lists and RefULA (written from the published contention description). For the OTIR/OTDR repeat cycles both readings of "bc" (before/after the decrement of B) are accepted.',
    ref='DESIGN.md section 5, C19'),
+ 'C20': dict(
+   technique='deterministic simulation: record/replay with restarts - harness RZX recorder driving a real core, rzxplay on C and Python engines, stop/dump/resume at seeded frames, only the dumped file survives',
+   text='Seeded exploration of recordings (programs, frame lengths incl. 1-3-fetch and zero-fetch frames, port readings, repeat markers, snapshot formats, second snapshot+recording pair, recording conventions/--flags), stop points and engine choices: playback must complete without desynchronisation and end in the recorder\'s state, C and Python must agree, resume from the dumped RZX must reach the same state, rzxinfo must list exactly what was recorded.',
+   note='Trusts the harness recorder/encoder (follows the RZX conventions documented by rzxplay --flags help). Same engine family (plain/--cmio) for recorder and players. fe is not compared when a Z80 snapshot is involved; MEMPTR loss at Z80 restarts under --cmio is modelled in the reference.',
+   ref='DESIGN.md section 5, C20'),
  'C10': dict(
    technique='deterministic simulation: crash-restart at seeded instruction boundaries, oracle = uninterrupted run',
    text='Seeded exploration of crash points: generated programs are run by the real trace.py once uninterrupted and once as a chain of legs that survive only through the SZX/Z80 files they write; final simulator states must agree. Evidence, not proof: crash points, programs, machines and engines are sampled with boundary bias.',
